@@ -96,3 +96,20 @@ type VerifDedup struct{ d *msgIdDedup }
 
 func VerifNewDedup(size int) *VerifDedup   { return &VerifDedup{d: newMsgIdDedup(size)} }
 func (v *VerifDedup) Seen(id []byte) bool { return v.d.seen(id) }
+
+// VerifSetPool replaces the service's private stream pool by p (call after the app has started). The C17
+// harness passes a pass-through wrapper of VerifPool(svc) that lets it place a stream removal exactly at a
+// pool call made by a frame handler (e.g. between the recording of the interest and AddTagsCtx).
+func VerifSetPool(svc Service, p streampool.StreamPool) { svc.(*service).pool = p }
+
+// VerifTryStreamRecord reports, WITHOUT blocking, whether remoteMu is currently held by somebody else
+// (locked = true, nothing else is looked at) and otherwise whether service.streams has a record for streamId.
+func VerifTryStreamRecord(svc Service, streamId uint32) (locked bool, has bool) {
+	s := svc.(*service)
+	if !s.remoteMu.TryLock() {
+		return true, false
+	}
+	defer s.remoteMu.Unlock()
+	_, has = s.streams[streamId]
+	return false, has
+}
